@@ -118,6 +118,26 @@ def obligations(facts):
         rep("tdigest.query", "tdigest::get_quantile:range-check", fn, ("is_empty()", "throw") in conds[:1] and any(c in ("((rank<0)||(rank>1))", "((rank<0.0)||(rank>1.0))") and a == "throw" for c, a in conds[:2]), "empty sketch and ranks outside [0, 1] are rejected first", "get_quantile does not reject empty / out-of-range ranks first: %s" % conds[:2])
         rep("tdigest.query", "tdigest::get_quantile:clamp-min", fn, ("(weight<1)", "return min_") in conds, "quantile of the lowest unit of weight is min_", "no `if (weight < 1) return min_`: quantile(0) is no longer the exact minimum (%s)" % conds)
         rep("tdigest.query", "tdigest::get_quantile:clamp-max", fn, (("(weight>(centroids_weight_-1))", "return max_") in conds or ("(weight>(centroids_weight_-1.0))", "return max_") in conds), "quantile of the highest unit of weight is max_", "no `if (weight > centroids_weight_ - 1.0) return max_`: quantile(1) is no longer the exact maximum (%s)" % conds)
+    # queries read the centroids only after the buffer was folded in (compress), unless the same expression also counts the buffer
+    for qn in ("get_rank", "get_quantile"):
+        fq = one(qn)
+        if fq is None:
+            continue
+        seen = False
+        early = None
+        for s_ in _top(fq):
+            cs = []
+            walk(s_, lambda x: cs.append(x) if x.get("k") == "Call" and x.get("cname") == "compress" else None)
+            if cs:
+                seen = True
+                break
+            reads_c, reads_b = [], []
+            walk(s_, lambda x: reads_c.append(x) if x.get("k") == "Member" and x.get("f") in ("centroids_", "centroids_weight_") else None)
+            walk(s_, lambda x: reads_b.append(x) if x.get("k") == "Member" and x.get("f") == "buffer_" else None)
+            if reads_c and not reads_b and early is None:
+                early = s_
+        ok = seen and early is None
+        rep("tdigest.query", "tdigest::%s:reads-centroids-after-compress" % qn, fq, ok, "the buffered values are folded into the centroids before the query looks at the centroids", "`%s` looks at the centroids before compress() folded the buffered values in: a sketch that was compressed while holding one value and then received more values answers every query from that single centroid" % (_t(early) if early is not None else "no compress() call"), loc=(early or {}).get("loc"))
     fn = one("get_CDF")
     if fn is not None:
         t = [_t(s) for s in _top(fn)]
